@@ -1,3 +1,526 @@
-(* Proofs/Batch.v -- C03 (stub, being written) *)
-From XMT Require Import Base.Prelude Model.Batch.
-Lemma stub_true : True. Proof. exact I. Qed.
+(* Proofs/Batch.v -- lemmas about Model/Batch.v (C03: batching of queued packets).
+   Layout:
+     1. record bookkeeping (tags / device never influence what the peer does with a packet)
+     2. the receiving side: a well-formed transmission is processed packet by packet
+     3. the loop of nextPacket (np_loop): structure, flags, budget
+     4. nextPacket and Session.next: one transmission
+     5. draining: induction over the number of transmissions
+     6. mergeTags, the abandoned group, the keep-alive-only observation *)
+From XMT Require Import Base.Prelude Base.BitLemmas Model.Batch.
+From Coq Require Import ZifyBool.
+Ltac Zify.zify_post_hook ::= Z.div_mod_to_equations.
+
+Local Open Scope Z_scope.
+
+(* ------------------------------------------------------------------ 1. bookkeeping *)
+
+(* what write_unpack and the peer need of a queued packet (weaker than queueable: no condition on
+   tags, job number or length) *)
+Definition packable (p : packet) : bool :=
+  negb (f_multi (p_fl p)) && negb (f_mdev (p_fl p)) && negb (f_oneshot (p_fl p)) &&
+  (negb (f_frag (p_fl p)) || (1 <=? f_len (p_fl p)) || (p_id p =? SvDrop) || (p_id p =? SvRegister)).
+
+Definition nonnop (l : list packet) : list packet := filter (fun p => negb (is_nop p)) l.
+(* what the peer does with a packet that arrives at the session of its device *)
+Definition direct' (p : packet) : list dlv := fst (handle (p_dev p) p).
+Definition optl {A} (o : option A) : list A := match o with Some x => [x] | None => [] end.
+(* Session.next replaces the tags of the packet it picked when a proxy is active *)
+Definition retag (c : conf) (p : packet) : packet :=
+  match c_ptags c with Some t => set_tags p t | None => p end.
+
+Lemma queueable_packable p : queueable p = true -> packable p = true.
+Proof.
+  unfold queueable, packable. intro H.
+  repeat (apply andb_prop in H; destruct H as [H ?]).
+  repeat (apply andb_true_intro; split); assumption.
+Qed.
+
+Lemma queueable_len p : queueable p = true -> 0 <= p_len p.
+Proof.
+  unfold queueable. intro H. apply andb_prop in H. destruct H as [_ H]. lia.
+Qed.
+
+Lemma is_nop_set_tags p t : is_nop (set_tags p t) = is_nop p.
+Proof. reflexivity. Qed.
+Lemma is_nop_set_dev p d : is_nop (set_dev p d) = is_nop p.
+Proof. reflexivity. Qed.
+Lemma is_nop_norm i p : is_nop (norm i p) = is_nop p.
+Proof. unfold norm. destruct (p_dev p =? 0); reflexivity. Qed.
+Lemma is_nop_untag p : is_nop (untag p) = is_nop p.
+Proof. reflexivity. Qed.
+Lemma packable_set_tags p t : packable (set_tags p t) = packable p.
+Proof. reflexivity. Qed.
+Lemma packable_norm i p : packable (norm i p) = packable p.
+Proof. unfold norm. destruct (p_dev p =? 0); reflexivity. Qed.
+Lemma is_own_set_tags i p t : is_own i (set_tags p t) = is_own i p.
+Proof. reflexivity. Qed.
+Lemma psize_norm i p : psize (norm i p) = psize p.
+Proof. unfold norm. destruct (p_dev p =? 0); reflexivity. Qed.
+Lemma p_tags_norm i p : p_tags (norm i p) = p_tags p.
+Proof. unfold norm. destruct (p_dev p =? 0); reflexivity. Qed.
+Lemma p_fl_norm i p : p_fl (norm i p) = p_fl p.
+Proof. unfold norm. destruct (p_dev p =? 0); reflexivity. Qed.
+Lemma norm_set_tags i p t : norm i (set_tags p t) = set_tags (norm i p) t.
+Proof. unfold norm. cbn [set_tags p_dev]. destruct (p_dev p =? 0); reflexivity. Qed.
+Lemma untag_set_tags p t : untag (set_tags p t) = untag p.
+Proof. reflexivity. Qed.
+Lemma untag_norm i p : untag (norm i p) = norm i (untag p).
+Proof. unfold untag. symmetry. apply norm_set_tags. Qed.
+
+Lemma norm_own_dev i p : is_own i p = true -> p_dev (norm i p) = i.
+Proof.
+  unfold is_own, norm. destruct (p_dev p =? 0) eqn:E; cbn [set_dev p_dev]; [reflexivity|].
+  rewrite orb_false_l. lia.
+Qed.
+Lemma norm_dev_nz i p : i <> 0 -> p_dev (norm i p) <> 0.
+Proof. unfold norm. destruct (p_dev p =? 0) eqn:E; cbn [set_dev p_dev]; lia. Qed.
+Lemma norm_foreign i p : is_own i p = false -> norm i p = p.
+Proof. unfold is_own, norm. destruct (p_dev p =? 0); [discriminate|reflexivity]. Qed.
+Lemma norm_idem i p : i <> 0 -> norm i (norm i p) = norm i p.
+Proof.
+  intro Hi. unfold norm at 1. pose proof (norm_dev_nz i p Hi).
+  destruct (p_dev (norm i p) =? 0) eqn:E; [lia|reflexivity].
+Qed.
+Lemma retag_untag_norm c i p : untag (norm i (retag c p)) = untag (norm i p).
+Proof. unfold retag. destruct (c_ptags c); [|reflexivity]. rewrite norm_set_tags. reflexivity. Qed.
+Lemma is_own_retag c i p : is_own i (retag c p) = is_own i p.
+Proof. unfold retag. destruct (c_ptags c); reflexivity. Qed.
+Lemma is_nop_retag c p : is_nop (retag c p) = is_nop p.
+Proof. unfold retag. destruct (c_ptags c); reflexivity. Qed.
+Lemma packable_retag c p : packable (retag c p) = packable p.
+Proof. unfold retag. destruct (c_ptags c); reflexivity. Qed.
+Lemma p_fl_retag c p : p_fl (retag c p) = p_fl p.
+Proof. unfold retag. destruct (c_ptags c); reflexivity. Qed.
+Lemma p_dev_retag c p : p_dev (retag c p) = p_dev p.
+Proof. unfold retag. destruct (c_ptags c); reflexivity. Qed.
+
+(* the peer never looks at the tags of a packet *)
+Definition retag_d (t : list Z) (d : dlv) : dlv := mkD (d_sid d) (set_tags (d_pkt d) t).
+
+Lemma handle_pre_tags sid p t :
+  handle_pre sid (set_tags p t) = handle_pre sid p.
+Proof. reflexivity. Qed.
+
+Lemma handle_body_tags sid p t :
+  handle_body sid (set_tags p t) = (map (retag_d t) (fst (handle_body sid p)), snd (handle_body sid p)).
+Proof.
+  unfold handle_body. cbn [set_tags p_fl p_id].
+  repeat match goal with |- context [if ?b then _ else _] => destruct b end; reflexivity.
+Qed.
+
+Lemma handle_tags sid p t :
+  handle sid (set_tags p t) = (map (retag_d t) (fst (handle sid p)), snd (handle sid p)).
+Proof.
+  unfold handle. rewrite handle_pre_tags.
+  destruct (handle_pre sid p) as [[d e]|] eqn:E.
+  - unfold handle_pre in E.
+    repeat match type of E with context [if ?b then _ else _] => destruct b end;
+      inversion E; reflexivity.
+  - change (single_frag (set_tags p t)) with (single_frag p).
+    destruct (single_frag p).
+    + change (set_fl (set_tags p t) (fl_clear (p_fl (set_tags p t))))
+        with (set_tags (set_fl p (fl_clear (p_fl p))) t).
+      rewrite handle_pre_tags.
+      destruct (handle_pre sid (set_fl p (fl_clear (p_fl p)))) as [[d e]|] eqn:E2.
+      * unfold handle_pre in E2.
+        repeat match type of E2 with context [if ?b then _ else _] => destruct b end;
+          inversion E2; reflexivity.
+      * apply handle_body_tags.
+    + apply handle_body_tags.
+Qed.
+
+Lemma untag_retag_d d : untag_d d = retag_d [] d.
+Proof. reflexivity. Qed.
+
+Lemma handle_untag sid p :
+  map untag_d (fst (handle sid p)) = fst (handle sid (untag p)) /\ snd (handle sid p) = snd (handle sid (untag p)).
+Proof.
+  unfold untag. rewrite handle_tags. cbn [fst snd]. split; [|reflexivity].
+  apply map_ext. intro d. apply untag_retag_d.
+Qed.
+
+Lemma handle_nop sid p : is_nop p = true -> handle sid p = ([], 0).
+Proof.
+  intro H. unfold handle, handle_pre. rewrite H, orb_true_r. reflexivity.
+Qed.
+
+Lemma direct'_nop p : is_nop p = true -> direct' p = [].
+Proof. intro H. unfold direct'. rewrite handle_nop by assumption. reflexivity. Qed.
+
+Lemma flat_map_direct'_nonnop l : flat_map direct' (nonnop l) = flat_map direct' l.
+Proof.
+  induction l as [|p l IH]; [reflexivity|]. cbn [nonnop filter flat_map].
+  destruct (is_nop p) eqn:E; cbn [negb].
+  - rewrite direct'_nop by assumption. exact IH.
+  - cbn [flat_map]. f_equal. exact IH.
+Qed.
+
+Lemma direct_direct' i p : direct i p = direct' (untag (norm i p)).
+Proof. reflexivity. Qed.
+
+Lemma flat_map_direct i l : flat_map (direct i) l = flat_map direct' (map (fun p => untag (norm i p)) l).
+Proof.
+  induction l as [|p l IH]; [reflexivity|]. cbn [flat_map map]. rewrite IH. reflexivity.
+Qed.
+
+(* a packet that arrives at the session of its own device never produces an error *)
+Lemma handle_body_no_err sid p :
+  packable p = true -> snd (handle_body sid p) = 0.
+Proof.
+  unfold packable, handle_body. intro H.
+  repeat (apply andb_prop in H; destruct H as [H ?]).
+  repeat match goal with |- context [if ?b then _ else _] => destruct b eqn:? end;
+    cbn [snd]; try reflexivity.
+  exfalso. cbn [negb orb] in *. lia.
+Qed.
+
+Lemma handle_no_err p :
+  p_dev p <> 0 -> packable p = true -> snd (handle (p_dev p) p) = 0.
+Proof.
+  intros Hd Hp. unfold handle, handle_pre.
+  destruct ((p_dev p =? 0) || is_nop p) eqn:E1; [reflexivity|].
+  rewrite Z.eqb_refl. cbn [negb]. rewrite andb_false_r.
+  destruct (single_frag p) eqn:Es.
+  - cbn [set_fl p_dev]. rewrite Z.eqb_refl. cbn [negb]. rewrite andb_false_r.
+    match goal with |- context [if ?b then _ else _] => destruct b end; [reflexivity|].
+    unfold handle_body. cbn [set_fl p_fl p_id fl_clear f_frag f_oneshot f_multi f_crypt f_len].
+    unfold single_frag in Es.
+    repeat (apply andb_prop in Es; destruct Es as [Es ?]).
+    rewrite Es. cbn [negb].
+    repeat match goal with |- context [if ?b then _ else _] => destruct b end; reflexivity.
+  - apply handle_body_no_err. exact Hp.
+Qed.
+
+(* an ordinary data packet reaches the handlers of its device unchanged *)
+Lemma direct_plain i p :
+  i <> 0 -> queueable p = true -> plain p = true -> is_nop p = false -> direct i p = [to_own i p].
+Proof.
+  intros Hi Hq Hpl Hn. unfold direct, to_own.
+  set (v := untag (norm i p)).
+  assert (Hv : p_dev v <> 0) by (apply (norm_dev_nz i p Hi)).
+  assert (Hnv : is_nop v = false) by (subst v; rewrite is_nop_untag, is_nop_norm; exact Hn).
+  assert (Hfl : p_fl v = p_fl p) by (subst v; cbn [untag set_tags p_fl]; apply p_fl_norm).
+  assert (Hid : p_id v = p_id p) by (subst v; unfold norm; destruct (p_dev p =? 0); reflexivity).
+  change (p_dev (norm i p)) with (p_dev v).
+  unfold handle, handle_pre. rewrite Hnv.
+  replace (p_dev v =? 0) with false by lia. cbn [orb].
+  rewrite Z.eqb_refl. cbn [negb]. rewrite andb_false_r.
+  unfold queueable in Hq. unfold plain in Hpl.
+  repeat (apply andb_prop in Hq; destruct Hq as [Hq ?]).
+  apply andb_prop in Hpl. destruct Hpl as [Hp1 Hp2].
+  assert (Hsf : single_frag v = false).
+  { unfold single_frag. rewrite Hfl, Hid.
+    destruct (f_frag (p_fl p)) eqn:Ef; [|reflexivity]. cbn [negb orb andb] in Hp2.
+    replace (f_len (p_fl p) =? 1) with false by lia. repeat rewrite andb_false_r. reflexivity. }
+  rewrite Hsf. unfold handle_body. rewrite Hfl, Hid.
+  destruct (f_oneshot (p_fl p)); [discriminate|].
+  destruct ((p_id p =? SvComplete) && negb (f_crypt (p_fl p))); [discriminate|].
+  destruct (f_multi (p_fl p)); [discriminate|].
+  destruct (f_frag (p_fl p)) eqn:Ef; [|reflexivity].
+  cbn [negb orb andb] in Hp2.
+  replace (p_id p =? SvDrop) with false by lia.
+  replace (p_id p =? SvRegister) with false by lia.
+  replace (f_len (p_fl p) =? 0) with false by lia. reflexivity.
+Qed.
+
+(* ------------------------------------------------------------------ 2. the receiving side *)
+
+Definition in_ok (reg : Z -> bool) (i : Z) (v : packet) : Prop :=
+  packable v = true /\ p_dev v <> 0 /\ (p_dev v = i \/ reg (p_dev v) = true).
+
+(* what Session.next may hand to the wire *)
+Definition wf_tx (reg : Z -> bool) (i : Z) (t : tx) : Prop :=
+  match t with
+  | TSingle p => p_dev p = i /\ packable p = true
+  | TMulti o => c_dev o = i /\ f_len (c_fl o) = len (c_in o) /\ len (c_in o) < 65536 /\
+                Forall (in_ok reg i) (c_in o) /\
+                (f_mdev (c_fl o) = false -> Forall (fun v => p_dev v = i) (c_in o))
+  end.
+
+Lemma map_flat_map {A B C} (g : B -> C) (f : A -> list B) l :
+  map g (flat_map f l) = flat_map (fun x => map g (f x)) l.
+Proof.
+  induction l as [|x l IH]; [reflexivity|]. cbn [flat_map]. rewrite map_app, IH. reflexivity.
+Qed.
+
+Lemma flat_map_map {A B C} (g : A -> B) (f : B -> list C) l :
+  flat_map f (map g l) = flat_map (fun x => f (g x)) l.
+Proof.
+  induction l as [|x l IH]; [reflexivity|]. cbn [flat_map map]. rewrite IH. reflexivity.
+Qed.
+
+Lemma to_nat_len {A} (l : list A) : Z.to_nat (len l) = length l.
+Proof. unfold len. apply Nat2Z.id. Qed.
+
+Lemma len_zero_nil {A} (l : list A) : len l = 0 -> l = [].
+Proof. destruct l; [reflexivity|]. rewrite len_cons. pose proof (len_nonneg l). lia. Qed.
+
+Lemma recv_inner_spec hid inner :
+  hid <> 0 -> Forall (fun v => packable v = true /\ p_dev v = hid) inner ->
+  recv_inner hid (length inner) inner = (flat_map (fun v => fst (handle hid v)) inner, 0).
+Proof.
+  intros Hh H. induction H as [|v l [Hp Hd] _ IH]; [reflexivity|].
+  cbn [length recv_inner flat_map].
+  pose proof (handle_no_err v) as Hn. rewrite Hd in Hn. specialize (Hn Hh Hp).
+  destruct (handle hid v) as [d e]. cbn [snd fst] in *. subst e. cbn [Z.eqb].
+  rewrite IH. reflexivity.
+Qed.
+
+Lemma proc_multi_spec reg hid inner :
+  Forall (in_ok reg hid) inner ->
+  proc_multi reg hid (length inner) inner = (flat_map (fun v => direct' (untag v)) inner, 0).
+Proof.
+  intro H. induction H as [|v l [Hp [Hd Hr]] _ IH]; [reflexivity|].
+  cbn [length proc_multi flat_map].
+  replace (p_dev v =? 0) with false by lia.
+  assert (Hpu : packable (untag v) = true) by exact Hp.
+  pose proof Hpu as Hpu'. unfold packable in Hpu'.
+  repeat (apply andb_prop in Hpu'; destruct Hpu' as [Hpu' ?]).
+  destruct (f_multi (p_fl (untag v))); [discriminate|].
+  destruct (f_mdev (p_fl (untag v))); [discriminate|].
+  destruct (f_oneshot (p_fl (untag v))); [discriminate|]. cbn [orb].
+  change (p_dev (untag v)) with (p_dev v).
+  assert (He : snd (handle (p_dev v) (untag v)) = 0) by (apply (handle_no_err (untag v)); assumption).
+  destruct (hid =? p_dev v) eqn:E.
+  - assert (hid = p_dev v) by lia. subst hid. cbn [Z.eqb]. rewrite IH. reflexivity.
+  - assert (Hreg : reg (p_dev v) = true) by (destruct Hr; [lia|assumption]). rewrite Hreg.
+    unfold direct'. change (p_dev (untag v)) with (p_dev v).
+    destruct (handle (p_dev v) (untag v)) as [d e]. cbn [snd fst] in *. subst e. cbn [Z.eqb].
+    rewrite IH. reflexivity.
+Qed.
+
+Lemma direct'_untag_idem v : map untag_d (direct' (untag v)) = direct' (untag v).
+Proof.
+  unfold direct'. destruct (handle_untag (p_dev (untag v)) (untag v)) as [H _]. exact H.
+Qed.
+
+Lemma recv_tx_spec reg i t :
+  i <> 0 -> wf_tx reg i t ->
+  map untag_d (fst (recv_tx reg i t)) = flat_map direct' (map untag (tx_packets t)) /\
+  (snd (recv_tx reg i t) = 0 \/
+   (snd (recv_tx reg i t) = E_COUNT /\ fst (recv_tx reg i t) = [] /\ exists o, t = TMulti o /\ c_in o = [])).
+Proof.
+  intros Hi Hw. destruct t as [p|o]; cbn [wf_tx tx_packets recv_tx] in *.
+  - destruct Hw as [Hd Hp].
+    assert (Hm : f_mdev (p_fl p) = false).
+    { unfold packable in Hp. repeat (apply andb_prop in Hp; destruct Hp as [Hp ?]).
+      destruct (f_mdev (p_fl p)); [discriminate|reflexivity]. }
+    rewrite Hm. destruct (handle_untag i p) as [H1 H2]. split.
+    + rewrite H1. cbn [map flat_map]. rewrite app_nil_r. unfold direct'.
+      change (p_dev (untag p)) with (p_dev p). rewrite Hd. reflexivity.
+    + left. pose proof (handle_no_err p) as Hn. rewrite Hd in Hn. apply Hn; assumption.
+  - destruct Hw as [Hd [Hl [Hb [Hall Hown]]]].
+    destruct (f_mdev (c_fl o)) eqn:Em.
+    + destruct (f_len (c_fl o) =? 0) eqn:E0.
+      * assert (c_in o = []) by (apply len_zero_nil; lia).
+        split; [rewrite H; reflexivity|]. right. cbn [snd fst].
+        split; [reflexivity|]. split; [reflexivity|]. exists o. split; [reflexivity|assumption].
+      * rewrite Hl, to_nat_len, proc_multi_spec by assumption. cbn [fst snd]. split; [|left; reflexivity].
+        rewrite map_flat_map, flat_map_map. apply flat_map_ext. intro v. apply direct'_untag_idem.
+    + rewrite Hd. replace (i =? 0) with false by lia. rewrite Z.eqb_refl. cbn [negb].
+      destruct (f_len (c_fl o) =? 0) eqn:E0.
+      * assert (c_in o = []) by (apply len_zero_nil; lia).
+        split; [rewrite H; reflexivity|]. right. cbn [snd fst].
+        split; [reflexivity|]. split; [reflexivity|]. exists o. split; [reflexivity|assumption].
+      * specialize (Hown eq_refl).
+        rewrite Hl, to_nat_len, recv_inner_spec; [|assumption|].
+        2:{ rewrite Forall_forall in *. intros v Hv. split; [apply (Hall v Hv)|apply (Hown v Hv)]. }
+        cbn [fst snd]. split; [|left; reflexivity].
+        rewrite map_flat_map, flat_map_map.
+        rewrite Forall_forall in Hown.
+        clear - Hown. induction (c_in o) as [|v l IH]; [reflexivity|]. cbn [flat_map].
+        rewrite IH by (intros x Hx; apply Hown; right; exact Hx). f_equal.
+        destruct (handle_untag i v) as [H1 _]. rewrite H1. unfold direct'.
+        change (p_dev (untag v)) with (p_dev v). rewrite (Hown v (or_introl eq_refl)). reflexivity.
+Qed.
+
+(* ------------------------------------------------------------------ 3. the loop of nextPacket *)
+
+Lemma write_unpack_packable o src :
+  packable src = true ->
+  write_unpack o src =
+  mkC (c_dev o) (set_multi (or_chan (set_len (c_fl o) (f_len (c_fl o) + 1)) (f_chan (p_fl src))))
+      (c_tags o ++ p_tags src) (c_in o ++ [src]).
+Proof.
+  intro H. unfold write_unpack. unfold packable in H.
+  repeat (apply andb_prop in H; destruct H as [H ?]).
+  destruct (f_multi (p_fl src)); [discriminate|]. destruct (f_mdev (p_fl src)); [discriminate|]. reflexivity.
+Qed.
+
+Lemma nonnop_cons_nop p l : is_nop p = true -> nonnop (p :: l) = nonnop l.
+Proof. intro H. unfold nonnop. cbn [filter]. rewrite H. reflexivity. Qed.
+
+Lemma nonnop_cons_eq p a b : nonnop a = nonnop b -> nonnop (p :: a) = nonnop (p :: b).
+Proof. intro H. unfold nonnop in *. cbn [filter]. destruct (negb (is_nop p)); [f_equal|]; exact H. Qed.
+
+Lemma nonnop_app a b : nonnop (a ++ b) = nonnop a ++ nonnop b.
+Proof. apply filter_app. Qed.
+
+(* structure: what the loop consumes (used), what it packs (kept), what it leaves *)
+Lemma np_loop_struct F i : forall fuel l s m o o' k rest,
+  np_loop F i fuel l s m o = (o', k, rest) ->
+  Forall (fun p => packable p = true) l ->
+  exists used kept,
+    l = used ++ optl k ++ rest /\
+    c_in o' = c_in o ++ map (norm i) kept /\
+    c_tags o' = c_tags o ++ flat_map p_tags kept /\
+    c_dev o' = c_dev o /\
+    nonnop kept = nonnop used /\
+    incl kept used /\
+    (length kept <= fuel)%nat /\
+    ((0 <? s) = false -> fuel <> O -> l <> [] -> used <> []).
+Proof.
+  induction fuel as [|f IH]; intros l s m o o' k rest H Hp.
+  - cbn [np_loop] in H. inversion H; subst. exists [], []. cbn [optl app map flat_map].
+    repeat rewrite app_nil_r. repeat split; try reflexivity; try (intros x Hx; exact Hx); try lia;
+      try (intros; congruence).
+  - destruct l as [|n r].
+    + cbn [np_loop] in H. inversion H; subst. exists [], []. cbn [optl app map flat_map].
+      repeat rewrite app_nil_r. repeat split; try reflexivity; try (intros x Hx; exact Hx); try (cbn; lia);
+        try (intros; congruence).
+    + cbn [np_loop] in H. inversion Hp as [|? ? Hn Hr]; subst.
+      destruct (is_nop n && (((0 <? s) && negb m) || is_own i n)) eqn:E1.
+      * apply andb_prop in E1. destruct E1 as [En _].
+        destruct (IH _ _ _ _ _ _ _ H Hr) as [used [kept [H1 [H2 [H3 [H4 [H5 [H6 [H7 _]]]]]]]]].
+        exists (n :: used), kept. repeat split; try assumption.
+        -- rewrite H1. reflexivity.
+        -- rewrite nonnop_cons_nop by assumption. exact H5.
+        -- intros x Hx. right. apply H6. exact Hx.
+        -- lia.
+        -- intros _ _ _ Hc. discriminate.
+      * destruct ((0 <? s) && (F <? s + psize n)) eqn:E2.
+        -- inversion H; subst. exists [], []. cbn [optl app map flat_map].
+           repeat rewrite app_nil_r. repeat split; try reflexivity; try (intros x Hx; exact Hx); try (cbn; lia);
+             try (intros Hs; rewrite Hs in E2; discriminate).
+        -- set (md := negb (is_own i n) && negb m) in *.
+           set (o1 := if md then mkC (c_dev o) (set_mdev (c_fl o)) (c_tags o) (c_in o) else o) in *.
+           assert (Ho1 : c_in o1 = c_in o /\ c_tags o1 = c_tags o /\ c_dev o1 = c_dev o)
+             by (subst o1; destruct md; repeat split; reflexivity).
+           destruct Ho1 as [Ha [Hb Hc]].
+           assert (Hpn : packable (norm i n) = true) by (rewrite packable_norm; exact Hn).
+           rewrite (write_unpack_packable o1 (norm i n) Hpn) in H.
+           destruct (IH _ _ _ _ _ _ _ H Hr) as [used [kept [H1 [H2 [H3 [H4 [H5 [H6 [H7 _]]]]]]]]].
+           cbn [c_in c_tags c_dev] in H2, H3, H4.
+           exists (n :: used), (n :: kept). repeat split.
+           ++ rewrite H1. reflexivity.
+           ++ rewrite H2, Ha. cbn [map]. rewrite <- app_assoc. reflexivity.
+           ++ rewrite H3, Hb, p_tags_norm. cbn [flat_map]. rewrite <- app_assoc. reflexivity.
+           ++ rewrite H4. exact Hc.
+           ++ apply nonnop_cons_eq. exact H5.
+           ++ intros x [Hx|Hx]; [left; exact Hx|right; apply H6; exact Hx].
+           ++ cbn [length]. lia.
+           ++ intros _ _ _ Hc'. discriminate.
+Qed.
+
+Lemma set_flags_mdev f n b :
+  f_mdev (set_multi (or_chan (set_len f n) b)) = f_mdev f.
+Proof. reflexivity. Qed.
+Lemma set_flags_len f n b :
+  f_len (set_multi (or_chan (set_len f n) b)) = u16 n.
+Proof. reflexivity. Qed.
+
+(* flags of the container: the count, and the multi-device bit *)
+Lemma np_loop_flags F i : forall fuel l s m o o' k rest,
+  np_loop F i fuel l s m o = (o', k, rest) ->
+  Forall (fun p => packable p = true) l ->
+  f_mdev (c_fl o) = m ->
+  f_len (c_fl o) = len (c_in o) -> len (c_in o) + Z.of_nat fuel < 65536 ->
+  (m = false -> Forall (fun v => p_dev v = i) (c_in o)) ->
+  f_len (c_fl o') = len (c_in o') /\ len (c_in o') <= len (c_in o) + Z.of_nat fuel /\
+  (f_mdev (c_fl o') = false -> Forall (fun v => p_dev v = i) (c_in o')).
+Proof.
+  induction fuel as [|f IH]; intros l s m o o' k rest H Hp Hm Hl Hb Hown.
+  - cbn [np_loop] in H. inversion H; subst. repeat split; try assumption; lia.
+  - destruct l as [|n r].
+    + cbn [np_loop] in H. inversion H; subst. repeat split; try assumption; lia.
+    + cbn [np_loop] in H. inversion Hp as [|? ? Hn Hr]; subst.
+      destruct (is_nop n && (((0 <? s) && negb (f_mdev (c_fl o))) || is_own i n)).
+      * destruct (IH _ _ _ _ _ _ _ H Hr eq_refl Hl ltac:(lia) Hown) as [H1 [H2 H3]].
+        repeat split; try assumption; lia.
+      * destruct ((0 <? s) && (F <? s + psize n)).
+        -- inversion H; subst. repeat split; try assumption; lia.
+        -- set (m := f_mdev (c_fl o)) in *.
+           set (md := negb (is_own i n) && negb m) in *.
+           set (o1 := if md then mkC (c_dev o) (set_mdev (c_fl o)) (c_tags o) (c_in o) else o) in *.
+           assert (Ha : c_in o1 = c_in o) by (subst o1; destruct md; reflexivity).
+           assert (Hlen1 : f_len (c_fl o1) = f_len (c_fl o)) by (subst o1; destruct md; reflexivity).
+           assert (Hmd1 : f_mdev (c_fl o1) = m || md).
+           { subst o1. destruct md eqn:Emd; cbn [c_fl set_mdev f_mdev].
+             - rewrite orb_true_r. reflexivity.
+             - rewrite orb_false_r. reflexivity. }
+           assert (Hpn : packable (norm i n) = true) by (rewrite packable_norm; exact Hn).
+           rewrite (write_unpack_packable o1 (norm i n) Hpn) in H.
+           match type of H with np_loop _ _ _ _ _ _ ?oo = _ => set (o2 := oo) in * end.
+           assert (Hin2 : c_in o2 = c_in o ++ [norm i n]) by (subst o2; cbn [c_in]; rewrite Ha; reflexivity).
+           assert (Hlen2 : len (c_in o2) = len (c_in o) + 1) by (rewrite Hin2, len_app; reflexivity).
+           assert (A1 : f_mdev (c_fl o2) = m || md)
+             by (subst o2; cbn [c_fl]; rewrite set_flags_mdev; exact Hmd1).
+           assert (A2 : f_len (c_fl o2) = len (c_in o2)).
+           { subst o2. cbn [c_fl]. rewrite set_flags_len, Hlen1, Hl. cbn [c_in]. rewrite Ha, len_app.
+             change (len [norm i n]) with 1. apply u16_small. pose proof (len_nonneg (c_in o)). lia. }
+           assert (A3 : m || md = false -> Forall (fun v => p_dev v = i) (c_in o2)).
+           { intro Hf. apply orb_false_elim in Hf. destruct Hf as [Hf1 Hf2]. rewrite Hin2.
+             apply Forall_app. split; [apply Hown; exact Hf1|]. constructor; [|constructor].
+             apply norm_own_dev. subst md. rewrite Hf1 in Hf2. cbn [negb] in Hf2. rewrite andb_true_r in Hf2.
+             destruct (is_own i n); [reflexivity|discriminate]. }
+           destruct (IH _ _ _ _ _ _ _ H Hr A1 A2 ltac:(lia) A3) as [H1 [H2 H3]].
+           repeat split; try assumption; lia.
+Qed.
+
+Lemma psize_pos p : 0 <= p_len p -> 0 < psize p.
+Proof.
+  intro H. unfold psize, len_prefix, HDR, LimitSmall, LimitMedium, LimitLarge.
+  pose proof (len_nonneg (p_tags p)).
+  repeat match goal with |- context [if ?b then _ else _] => destruct b end; lia.
+Qed.
+
+Lemma sum_size_app a b : sum_size (a ++ b) = sum_size a + sum_size b.
+Proof.
+  induction a as [|x a IH]; [reflexivity|]. cbn [app]. unfold sum_size in *. cbn [fold_right]. rewrite IH. lia.
+Qed.
+
+Lemma sum_size_zero l : Forall (fun v => 0 < psize v) l -> sum_size l <= 0 -> l = [].
+Proof.
+  intros H. destruct H as [|x l Hx Hl]; [reflexivity|].
+  unfold sum_size. cbn [fold_right]. intro Hs. exfalso.
+  assert (0 <= fold_right (fun p a => psize p + a) 0 l).
+  { clear - Hl. induction Hl; cbn [fold_right]; lia. }
+  lia.
+Qed.
+
+(* the size budget: either the running Size() sum is within limits.Frag or there is one packet *)
+Lemma np_loop_budget F i : forall fuel l s m o o' k rest,
+  np_loop F i fuel l s m o = (o', k, rest) ->
+  Forall (fun p => packable p = true /\ 0 <= p_len p) l ->
+  s = sum_size (c_in o) -> Forall (fun v => 0 < psize v) (c_in o) ->
+  (sum_size (c_in o) <= F \/ len (c_in o) <= 1) ->
+  (sum_size (c_in o') <= F \/ len (c_in o') <= 1).
+Proof.
+  induction fuel as [|f IH]; intros l s m o o' k rest H Hp Hs Hpos Hb.
+  - cbn [np_loop] in H. inversion H; subst. assumption.
+  - destruct l as [|n r].
+    + cbn [np_loop] in H. inversion H; subst. assumption.
+    + cbn [np_loop] in H. inversion Hp as [|? ? [Hn Hln] Hr]; subst s.
+      destruct (is_nop n && (((0 <? sum_size (c_in o)) && negb m) || is_own i n)).
+      * exact (IH _ _ _ _ _ _ _ H Hr eq_refl Hpos Hb).
+      * destruct ((0 <? sum_size (c_in o)) && (F <? sum_size (c_in o) + psize n)) eqn:E2.
+        -- inversion H; subst. assumption.
+        -- set (md := negb (is_own i n) && negb m) in *.
+           set (o1 := if md then mkC (c_dev o) (set_mdev (c_fl o)) (c_tags o) (c_in o) else o) in *.
+           assert (Ha : c_in o1 = c_in o) by (subst o1; destruct md; reflexivity).
+           assert (Hpn : packable (norm i n) = true) by (rewrite packable_norm; exact Hn).
+           rewrite (write_unpack_packable o1 (norm i n) Hpn) in H.
+           match type of H with np_loop _ _ _ _ _ _ ?oo = _ => set (o2 := oo) in * end.
+           assert (Hin2 : c_in o2 = c_in o ++ [norm i n]) by (subst o2; cbn [c_in]; rewrite Ha; reflexivity).
+           assert (Hsz : sum_size (c_in o2) = sum_size (c_in o) + psize n).
+           { rewrite Hin2, sum_size_app. unfold sum_size at 2. cbn [fold_right]. rewrite psize_norm. lia. }
+           pose proof (psize_pos n Hln) as Hpn0.
+           apply (IH _ _ _ _ _ _ _ H Hr).
+           ++ symmetry. exact Hsz.
+           ++ rewrite Hin2. apply Forall_app. split; [assumption|]. constructor; [|constructor].
+              rewrite psize_norm. exact Hpn0.
+           ++ destruct (0 <? sum_size (c_in o)) eqn:E0.
+              ** left. cbn [andb] in E2. lia.
+              ** right. assert (c_in o = []) by (apply sum_size_zero; [assumption|lia]).
+                 rewrite Hin2, H0. cbn. lia.
+Qed.
